@@ -229,6 +229,47 @@ fn wkey(k: &PubAny) -> WKey { WKey { body: body_of(k) } }
 // fixtures
 // ------------------------------------------------------------------------------------------
 
+/// the first 320 octets of the two SHAttered PDFs (Stevens et al., 2017; public): different
+/// documents with the same plain SHA-1 digest.  A signature over one must not verify for the other.
+const SHATTERED_1: &str = "255044462d312e330a25e2e3cfd30a0a0a312030206f626a0a3c3c2f57696474682032203020522f4865696768742033203020522f547970652034203020522f537562747970652035203020522f46696c7465722036203020522f436f6c6f7253706163652037203020522f4c656e6774682038203020522f42697473506572436f6d706f6e656e7420383e3e0a73747265616d0affd8fffe00245348412d3120697320646561642121212121852fec092339759c39b1a1c63c4c97e1fffe017346dc9166b67e118f029ab621b2560ff9ca67cca8c7f85ba84c79030c2b3de218f86db3a90901d5df45c14f26fedfb3dc38e96ac22fe7bd728f0e45bce046d23c570feb141398bb552ef5a0a82be331fea48037b8b5d71f0e332edf93ac3500eb4ddc0decc1a864790c782c76215660dd309791d06bd0af3f98cda4bc4629b1";
+const SHATTERED_2: &str = "255044462d312e330a25e2e3cfd30a0a0a312030206f626a0a3c3c2f57696474682032203020522f4865696768742033203020522f547970652034203020522f537562747970652035203020522f46696c7465722036203020522f436f6c6f7253706163652037203020522f4c656e6774682038203020522f42697473506572436f6d706f6e656e7420383e3e0a73747265616d0affd8fffe00245348412d3120697320646561642121212121852fec092339759c39b1a1c63c4c97e1fffe017f46dc93a6b67e013b029aaa1db2560b45ca67d688c7f84b8c4c791fe02b3df614f86db1690901c56b45c1530afedfb76038e972722fe7ad728f0e4904e046c230570fe9d41398abe12ef5bc942be33542a4802d98b5d70f2a332ec37fac3514e74ddc0f2cc1a874cd0c78305a21566461309789606bd0bf3f98cda8044629a1";
+
+/// "changing any bit of the message ... makes every verification entry point return an error", in
+/// the SHA-1 dimension: documents that collide under plain SHA-1 (oracle only)
+fn sha1_collision_cases(ctx: &mut Ctx, fixes: &[Fix]) {
+    use pgp::composed::{DetachedSignature, Message, MessageBuilder};
+    let (Ok(d1), Ok(d2)) = (hex::decode(SHATTERED_1), hex::decode(SHATTERED_2)) else { return };
+    let mut rng = ChaCha8Rng::seed_from_u64(0x5A1);
+    for fix in fixes.iter().filter(|f| f.name.starts_with("rsa") || f.name.starts_with("dsa")) {
+        let site = "SHA-1 signatures over documents that collide under plain SHA-1";
+        for (a, b, which) in [(&d1, &d2, "1->2"), (&d2, &d1, "2->1")] {
+            // detached
+            let r = guarded(|| {
+                let Ok(sig) = DetachedSignature::sign_binary_data(&mut rng, &fix.ssk.primary_key, &Password::empty(), HashAlgorithm::Sha1, &a[..]) else { return (false, false) };
+                (sig.verify(&fix.ssk.to_public_key().primary_key, &a[..]).is_ok(), sig.verify(&fix.ssk.to_public_key().primary_key, &b[..]).is_ok())
+            });
+            ctx.oracle("mutation_rejected", site, &format!("{} detached {which}", fix.name), matches!(r, Ok((_, false))), &format!("(verifies for the signed document, verifies for the colliding one) = {r:?}"));
+            // one-pass signed message with the literal data swapped
+            let r = guarded(|| {
+                let mut mb = MessageBuilder::from_bytes("", a.to_vec());
+                mb.sign(&fix.ssk.primary_key, Password::empty(), HashAlgorithm::Sha1);
+                let Ok(msg) = mb.to_vec(&mut rng) else { return false };
+                let Some(pos) = msg.windows(a.len()).position(|w| w == &a[..]) else { return false };
+                let mut swapped = msg.clone();
+                swapped[pos..pos + b.len()].copy_from_slice(b);
+                let Ok(mut m) = Message::from_bytes(&swapped[..]) else { return false };
+                let mut out = Vec::new();
+                if std::io::Read::read_to_end(&mut m, &mut out).is_err() {
+                    return false;
+                }
+                m.verify(&fix.ssk.to_public_key().primary_key).is_ok()
+            });
+            ctx.oracle("mutation_rejected", site, &format!("{} one-pass, literal data swapped {which}", fix.name), r == Ok(false), &format!("verifies with the colliding literal data: {r:?}"));
+            ctx.stat("sha1_collision");
+        }
+    }
+}
+
 struct Fix {
     name: &'static str,
     ssk: SignedSecretKey,
@@ -1337,6 +1378,7 @@ fn content_hex(s: &Subj) -> String {
 
 pub fn run(ctx: &mut Ctx) {
     let fixes = fixtures(ctx);
+    sha1_collision_cases(ctx, &fixes);
     for f in &fixes {
         ctx.stat(&format!("fixture:{}", f.name));
         let _ = &f.ssk;
